@@ -12,7 +12,8 @@ ASSUME = ["reference = crypt table regenerated from seed 0x00100001, HashString 
           "the 13 byte values that cannot occur in any &str (0xC0, 0xC1, 0xF5..0xFF) are unreachable through hash_string(&str) and covered only by the direct table comparison",
           "Jenkins fold direction (upper vs lower) is not fixed by the statement: either is accepted provided it is the same for every name",
           "key 0 is an identity in this code by construction; inverse-ness is still checked for it",
-          "thorough: the table case and 16 cipher-key cases are additionally interpreted by Miri (UB, overflow and debug assertions)"]
+          "thorough: the table case and 16 cipher-key cases are additionally interpreted by Miri (UB, overflow and debug assertions)",
+          "the byte-string hash of the non-default `simd` feature (SimdOps::hash_string_simd, SimdOps::crc32) is driven by its own worker built with --features simd (thorough: also under AddressSanitizer); the aarch64 path cannot be run on this machine"]
 
 
 def _miri_slice(res, tier, seed, scratch):
@@ -63,6 +64,33 @@ def _miri_slice(res, tier, seed, scratch):
     res.add_counter("miri_cases_interpreted", ran)
 
 
+def _simd_slice(res, tier, seed, scratch):
+    """The non-default cargo feature `simd` of wow-mpq carries a second implementation of the name hash (AVX2 vector code,
+    `unsafe`) with a byte-string interface: compared with the reference on every byte string of <= 2 bytes (incl. invalid
+    UTF-8) and on random strings around the vector thresholds at every slice alignment; thorough repeats it under
+    AddressSanitizer. A build that cannot be made => inconclusive, never a verdict."""
+    try:
+        b = sup.build("vh-mpq", "c04_simd", features="simd")
+    except sup.Broken as ex:
+        res.add_inconclusive("simd-slice-not-built")
+        res.notes.append(str(ex)[-400:])
+        return
+    sup.run_workers(res, b, [], tier, seed, scratch, nshards=4, case_timeout=120, label="simd-")
+    res.add_counter("simd_slice_runs|native", 1)
+    if tier == "thorough":
+        try:
+            ba = sup.build("vh-mpq", "c04_simd", flavor="asan", features="simd")
+        except sup.Broken as ex:
+            res.add_inconclusive("simd-slice-asan-not-built")
+            res.notes.append(str(ex)[-400:])
+            return
+        before = res.crashes
+        sup.run_workers(res, ba, [], "quick", seed, scratch, nshards=4, case_timeout=300, label="simd-asan-",
+                        env_extra={"ASAN_OPTIONS": "detect_leaks=0:halt_on_error=1:abort_on_error=1"})
+        res.add_counter("simd_slice_runs|asan", 1)
+        res.add_counter("simd_slice_asan_crashes", res.crashes - before)
+
+
 def run(tier, seed, scratch, t0):
     def post(res):
         c = res.counters
@@ -70,6 +98,7 @@ def run(tier, seed, scratch, t0):
             "lower" if c.get("jenkins_fold_lower", 0) and not c.get("jenkins_fold_upper", 0) else "mixed-or-none")
     def post_all(res):
         post(res)
+        _simd_slice(res, tier, seed, scratch)
         if tier == "thorough":
             _miri_slice(res, tier, seed, scratch)
     return sup.simple_check("C04", "vh-mpq", "c04", tier, seed, scratch, t0, "exploration", RULE, ASSUME,
@@ -79,4 +108,4 @@ def run(tier, seed, scratch, t0):
 
 
 def replay(rp, scratch):
-    return sup.generic_replay(rp, scratch, "vh-mpq")
+    return sup.generic_replay(rp, scratch, "vh-mpq", features="simd" if rp["replay"].get("bin") == "c04_simd" else None)
